@@ -48,7 +48,7 @@ def scenario(shape, faults, second=None, subs=None):
         import explore
         explore.normalize_chain_cfg(cfg)
     return {'cfg': cfg, 'transfers': transfers, 'faults': faults, 'cancel': None, 'mode': 'uniform',
-            'sched_seed': 1, 'fresh_after': True, 'fresh_nonseekable': True, 'serial': True}
+            'sched_seed': 1, 'fresh_after': True, 'fresh_nonseekable': True, 'serial': True, 'mark_failed_after_done': True}
 
 
 def positions(run):
